@@ -22,6 +22,7 @@ necessary to account for:
     may also differ.
 """
 
+from copy import copy
 from numpy import exp, cos, sin
 
 from tangelo.toolboxes.operators import QubitOperator
@@ -90,6 +91,7 @@ def translate_c_to_qulacs(source_circuit, noise_model=None, save_measurements=Fa
 
     # Maps the gate information properly. Different for each backend (order, values)
     for gate in source_circuit._gates:
+        gate = copy(gate)  # the source circuit is only read: renaming below must not reach it
         if gate.name == 'CNOT' and len(gate.control) > 1:
             gate.name = 'CX'
         if gate.name in {"H", "X", "Y", "Z", "S", "T"}:
